@@ -815,8 +815,18 @@ static inline long cmb_random_dice(const long a, const long b)
 {
     cmb_assert (a < b);
 
-    const double x = (double)(b - a + 1) * cmb_random();
-    return (long)(floor((double)a + x));
+    /* Offset from a in integer arithmetic: adding it to (double)a rounds for
+     * values beyond 2^53 (and to b + 1 already for much smaller ones, rarely),
+     * and b - a + 1 does not fit a long for wide intervals */
+    const unsigned long width = (unsigned long)b - (unsigned long)a;
+    const double x = ((double)width + 1.0) * cmb_random();
+    unsigned long k = (x < 0x1p64) ? (unsigned long)x : width;
+    if (k > width) {
+        /* width + 1 rounded up on its way to a double */
+        k = width;
+    }
+
+    return (long)((unsigned long)a + k);
 }
 
 /**
